@@ -15,9 +15,10 @@ ID = sys.argv[1]
 ARGS = sys.argv[2:]
 HERE = os.path.dirname(os.path.dirname(os.path.realpath(__file__)))
 SD = os.path.join(HERE, "seeded", ID)
-WT = "/tmp/seedv"
-SV = "/var/tmp/seed-verif"
-TGT = "/var/tmp/seed-target"
+SLOT = os.environ.get("SEED_SLOT", "")
+WT = "/tmp/seedv" + SLOT
+SV = "/var/tmp/seed-verif" + SLOT
+TGT = "/var/tmp/seed-target" + SLOT
 meta = json.load(open(os.path.join(SD, "meta.json")))
 prop = meta["property"]
 if "--prop" in ARGS:
